@@ -326,10 +326,20 @@ impl Facts {
         self.undo_frames.read().unwrap().len()
     }
 
-    /// Commit (discard) the top-most undo frame
+    /// Commit the top-most undo frame: its changes are kept. If an enclosing
+    /// frame is still open, the committed frame's first-write records are handed
+    /// to it so that a later rollback of the enclosing frame also undoes them.
     pub fn commit_undo_frame(&self) {
         let mut frames = self.undo_frames.write().unwrap();
-        frames.pop();
+        if let Some(committed) = frames.pop() {
+            if let Some(parent) = frames.last_mut() {
+                for entry in committed {
+                    if !parent.iter().any(|e| e.key == entry.key) {
+                        parent.push(entry);
+                    }
+                }
+            }
+        }
     }
 
     /// Rollback the top-most undo frame, restoring prior values
